@@ -825,3 +825,47 @@ func JS(v any) string { return js(v) }
 // Normalize1Vehicle / Normalize1Trip expose the content normal form of a single object.
 func Normalize1Vehicle(v *gtfs.Vehicle) NVehicleCore { return nVehicleCore(v) }
 func Normalize1Trip(t *gtfs.Trip) NTripCore          { return nTripCore(t) }
+
+// Canon returns a copy in which everything whose order no property fixes outside C06 is sorted:
+// vehicles, and the informed entities of each alert (as a multiset). Trips are sorted by key.
+// Two library results for equivalent inputs must have equal Canon forms.
+func Canon(n NRealtime) NRealtime {
+	c := n
+	c.Trips = append([]NTrip(nil), n.Trips...)
+	sort.SliceStable(c.Trips, func(i, j int) bool { return c.Trips[i].ID.Key() < c.Trips[j].ID.Key() })
+	c.Vehicles = append([]NVehicle(nil), n.Vehicles...)
+	sort.SliceStable(c.Vehicles, func(i, j int) bool { return js(c.Vehicles[i]) < js(c.Vehicles[j]) })
+	c.Alerts = append([]NAlert(nil), n.Alerts...)
+	for i := range c.Alerts {
+		inf := append([]NInformed(nil), c.Alerts[i].Informed...)
+		sort.SliceStable(inf, func(a, b int) bool { return js(inf[a]) < js(inf[b]) })
+		c.Alerts[i].Informed = inf
+	}
+	return c
+}
+
+// CanonJS is the JSON of the canonical form.
+func CanonJS(n NRealtime) string { return js(Canon(n)) }
+
+// FirstDiff shows the surroundings of the first position at which two strings differ.
+func FirstDiff(a, b string) string {
+	i := 0
+	for i < len(a) && i < len(b) && a[i] == b[i] {
+		i++
+	}
+	lo := i - 160
+	if lo < 0 {
+		lo = 0
+	}
+	cut := func(s string) string {
+		hi := i + 160
+		if hi > len(s) {
+			hi = len(s)
+		}
+		if lo > len(s) {
+			return ""
+		}
+		return s[lo:hi]
+	}
+	return fmt.Sprintf("first difference at offset %d:\n   …%s…\n   …%s…", i, cut(a), cut(b))
+}
